@@ -56,7 +56,13 @@ func c08Run(c *vk.Ctx) {
 	keys[0], keys[3] = keys[3], keys[0] // aes-128-gcm in front
 	cache := service.NewReplayCache(5000)
 	rigOff := StartTCPRig(keys, TCPRigOpts{Timeout: c06T})
-	rigOn := StartTCPRig(keys, TCPRigOpts{Timeout: c06T, Replay: &cache, Raw: true})
+	// the second service carries the same keys under OTHER ids (a key renamed by a reload, one secret
+	// given to two services): what one service issued, the other recognises too
+	renamed := append([]KeySpec(nil), keys...)
+	for i := range renamed {
+		renamed[i].ID = "renamed-" + renamed[i].ID
+	}
+	rigOn := StartTCPRig(renamed, TCPRigOpts{Timeout: c06T, Replay: &cache, Raw: true})
 	defer rigOff.Close(5 * time.Second)
 	defer rigOn.Close(5 * time.Second)
 
